@@ -244,20 +244,24 @@ def run(ctx):
     tlc.mc(ctx, "Registry", cfg="MC_Registry.cfg")
     s3 = tlc.gen(ctx, "Gen_Registry", cfg_text=GEN_CFG % 3)
     walks = tlc.gen(ctx, "Gen_Registry", cfg_text=GEN_CFG % ctx.pick(8, 10), workers=1,
-                    extra=("-simulate", "num=%d" % ctx.pick(700, 8000), "-depth", str(ctx.pick(10, 12)), "-seed", str(ctx.seed + 16)))
+                    extra=("-simulate", "num=%d" % ctx.pick(550, 8000), "-depth", str(ctx.pick(10, 12)), "-seed", str(ctx.seed + 16)))
     focus = tlc.gen(ctx, "Gen_Registry", cfg_text="INIT GInit\nNEXT FNext\nCONSTANTS MaxLen = 5\nCHECK_DEADLOCK FALSE\n")
     if len(focus) < 100:
         raise util.MachineryError("focused histories incomplete")
     focus2 = tlc.gen(ctx, "Gen_Registry", cfg_text="INIT GInit\nNEXT F2Next\nCONSTANTS MaxLen = 5\nCHECK_DEADLOCK FALSE\n")
     if len(focus2) < 50:
         raise util.MachineryError("second family of focused histories incomplete (%d)" % len(focus2))
+    focus3 = tlc.gen(ctx, "Gen_Registry", cfg_text="INIT GInit\nNEXT F3Next\nCONSTANTS MaxLen = 5\nCHECK_DEADLOCK FALSE\n")
+    if len(focus3) < 100:
+        raise util.MachineryError("third family of focused histories incomplete (%d)" % len(focus3))
     if len(s3) < 20000 or len(walks) < 500:
         raise util.MachineryError("history generation incomplete")
     rng = random.Random(ctx.seed + 16)
     rng.shuffle(s3)
     rng.shuffle(focus)
     rng.shuffle(focus2)
-    hs = s3[:ctx.pick(600, 8000)] + walks + focus[:ctx.pick(250, 100000)] + focus2[:ctx.pick(200, 100000)]
+    rng.shuffle(focus3)
+    hs = s3[:ctx.pick(450, 8000)] + walks + focus[:ctx.pick(250, 100000)] + focus2[:ctx.pick(200, 100000)] + focus3[:ctx.pick(150, 100000)]
     sers = ["serpent", "json", "msgpack", "marshal"]
     jobs = [(h, sers[i % 4] if i % 8 != 7 else "serpent") for i, h in enumerate(hs)]
     traces = run_histories(jobs)
